@@ -125,6 +125,21 @@ def gen_cases(seed, tier):
             for order in ((0, 1, 2), (2, 1, 0), (1, 0, 2)):
                 cases.append({'kind': 'rules', 'file': {'vars': [], 'tfs': [], 'rules': [rs[i] for i in order]},
                               'txns': [tx('COSTCO GAS #0123 KIRKLAND')]})
+    # corpus: an explicit `priority: 0` (and other boundary values) is a priority, not "none given": the 0 rule would win
+    # on the later keys but must lose to any positive / default priority, and must beat negative ones
+    for pz, po, want_zero_wins in ((0, None, False), (0, 1, False), (0, 50, False), (0, -1, True), (1, 0, True)):
+        for order in ((0, 1), (1, 0)):
+            rs = [blk('Zero', 'contains("UBER") and contains("EATS") and amount > 0', 'Food', 'Delivery', prio=pz),
+                  blk('Other', 'contains("UBER")', 'Transport', 'Rideshare', prio=po)]
+            cases.append({'kind': 'rules', 'file': {'vars': [], 'tfs': [], 'rules': [rs[i] for i in order]}, 'txns': [tx('UBER EATS ORDER')]})
+    # corpus: pattern text whose lower-cased form has another length (U+0130 lower-cases to two code points): the length
+    # that ranks is that of the text as written; competitor tied on the first three components with equal / one longer length
+    for a, b, d in (('contains("\u0130STANBUL")', 'contains("TANBUL M")', '\u0130STANBUL M\u0130GROS'),
+                    ('contains("M\u0130GROS \u0130Z")', 'contains("\u0130ZM\u0130R 1")', 'M\u0130GROS \u0130ZM\u0130R 1'),
+                    ('contains("B\u0130M")', 'contains("MARKET")', 'B\u0130M MARKET')):
+        for order in ((0, 1), (1, 0)):
+            rs = [blk('Dotted', a, 'Groceries', 'Market'), blk('Plain', b, 'Travel', 'Misc')]
+            cases.append({'kind': 'rules', 'file': {'vars': [], 'tfs': [], 'rules': [rs[i] for i in order]}, 'txns': [tx(d)]})
     # corpus: pattern functions spelled in upper / mixed case count as pattern conditions like lower-case ones
     for a, b, d in (('CONTAINS("UBER") and Contains("EATS")', 'contains("UBER EATS O")', 'UBER EATS ORDER'),
                     ('REGEX("COSTCO") and amount > 200', 'contains("COSTCO")', 'COSTCO WHSE 123'),
@@ -153,14 +168,23 @@ def gen_cases(seed, tier):
 
 
 # ---------------------------------------------------------------------------------------------------
-def tuples(jr):
+def as_written(jr, c):
+    """(match text, priority) of every rule AS WRITTEN in the generated file (no `priority:` line = 50), not as loaded:
+    the ranking the property speaks of is that of the file the user wrote."""
+    fr = (c or {}).get('file', {}).get('rules')
+    if fr is not None and len(fr) == len(jr['rules']):
+        return [(r['match'].strip(), 50 if r['priority'] is None else r['priority']) for r in fr]
+    return [(r['match'], r['priority']) for r in jr['rules']]
+
+
+def tuples(jr, c=None):
     """The ranking tuple as the property words it (constraint kinds = kinds the rule USES)."""
-    return [tuple(spec_semantic(r['match'], r['priority'])) for r in jr['rules']]
+    return [tuple(spec_semantic(m, p)) for m, p in as_written(jr, c)]
 
 
-def tuples_textual(jr):
+def tuples_textual(jr, c=None):
     """The code's reading: constraint kinds = keyword substrings of the expression text."""
-    return [tuple(spec_independent(r['match'], r['priority'])) for r in jr['rules']]
+    return [tuple(spec_independent(m, p)) for m, p in as_written(jr, c)]
 
 
 def kinds_signature(jr, idxs, tup, txt):
@@ -197,7 +221,7 @@ def judge_base(c, jr, ti):
     out = []
     if 'oracle' not in tr or any_abort(tr):
         return out
-    tup, txt = tuples(jr), tuples_textual(jr)
+    tup, txt = tuples(jr, c), tuples_textual(jr, c)
     ms = tr['ms']
     cat, sub, m = cands(jr, tr)
     for r, a, b in zip(jr['rules'], tup, txt):
@@ -280,7 +304,7 @@ def judge_variant(c, jr, req, vr):
     out = []
     if 'parse_error' in vr or 'harness_error' in vr:
         return [(0, 'harness', {'why': 'variant did not load', 'detail': vr}, None)]
-    tup, txt = tuples(jr), tuples_textual(jr)
+    tup, txt = tuples(jr, c), tuples_textual(jr, c)
     for ti, (tr, vt) in enumerate(zip(jr['txns'], vr['txns'])):
         if 'oracle' not in tr or any_abort(tr) or 'crash' in vt['ms']:
             continue
@@ -408,7 +432,7 @@ def main(tier):
     for c, jr in zip(cases, base):
         if 'txns' not in jr:
             continue
-        tup = tuples(jr)
+        tup = tuples(jr, c)
         for t, tr in zip(c['txns'], jr['txns']):
             evals += 1
             if 'oracle' not in tr or any_abort(tr):
